@@ -153,6 +153,7 @@ type WorkerOut struct {
 	NViol      uint64            `json:"n_violating_runs"`
 	Samples    []any             `json:"samples"`
 	Truncated  bool              `json:"truncated"`
+	SimLimit   string            `json:"sim_limit,omitempty"`
 	WallS      float64           `json:"wall_s"`
 }
 
